@@ -1,11 +1,13 @@
 // effects: a small translator from the SSA form of package formula to a Coq table of write footprints.
 // For every function of the package (and every anonymous function inside it) it lists the functions it may
 // call and every store it performs, classified by the ROOT of the written address:
-//   global:<name>              a package-level variable (or something reachable from it)
-//   param:<name>:<type>.<path> a field/element reachable from a parameter or receiver
-//   fresh                      an object allocated in this function (new, composite literal, make)
-//   local                      a local variable slot
-//   result:<callee>            memory returned by a call
+//
+//	global:<name>              a package-level variable (or something reachable from it)
+//	param:<name>:<type>.<path> a field/element reachable from a parameter or receiver
+//	fresh                      an object allocated in this function (new, composite literal, make)
+//	local                      a local variable slot
+//	result:<callee>            memory returned by a call
+//
 // Calls to methods outside the package whose receiver is rooted in a global or parameter are listed as
 // extcall:<root>:<method> (e.g. sync.Map.Store on innerMap).  No alias analysis is performed.
 package main
@@ -24,6 +26,34 @@ import (
 )
 
 const pkgPath = "github.com/aundis/formula"
+
+// extMethodCall records what a call of method g of another package, with the receiver as args[0], may write:
+// the receiver when it is rooted in a global or parameter (or, for the decimal package, in anything shared), and
+// for the decimal package every other pointer argument rooted in something shared (judged by the library's
+// contract in Conc/Footprint.v).
+func extMethodCall(writes map[string]bool, g *ssa.Function, args []ssa.Value) {
+	if g.Signature.Recv() == nil || len(args) == 0 {
+		return
+	}
+	r := root(args[0], 0)
+	isDec := g.Pkg != nil && strings.HasSuffix(g.Pkg.Pkg.Path(), "ericlagergren/decimal")
+	if strings.HasPrefix(r, "global:") || strings.HasPrefix(r, "param:") || (isDec && sharedRoot(r)) {
+		writes["extcall:"+r+":"+g.String()] = true
+	}
+	if !isDec {
+		return
+	}
+	// reference-typed arguments (other than the receiver) handed to a method of another package
+	for ai := 1; ai < len(args); ai++ {
+		if _, ok := args[ai].Type().Underlying().(*types.Pointer); !ok {
+			continue
+		}
+		ra := root(args[ai], 0)
+		if sharedRoot(ra) {
+			writes[fmt.Sprintf("extarg:%s:%s#%d", ra, g.String(), ai)] = true
+		}
+	}
+}
 
 func main() {
 	out := os.Args[1]
@@ -80,7 +110,37 @@ func main() {
 	sb.WriteString("(* function, callees inside the package, writes *)\n")
 	sb.WriteString("Definition impl_effects : list (string * list string * list string) :=\n  [")
 	callsites := map[string]map[string]int{} // function -> package function called directly -> number of call sites
-	funcrefs := map[string]bool{}           // package functions used as values (stored in tables, passed around)
+	funcrefs := map[string]bool{}            // package functions used as values (stored in tables, passed around)
+	// first pass: which functions have their VALUE taken anywhere in the package (an operand that is not the
+	// callee of a static call): only those - package functions, closures, bound-method and method-expression
+	// wrappers - can be the target of a call through a function value; a function of another package whose value
+	// is taken (e.g. the method expression (*decimal.Big).Add stored in a table) is remembered too
+	taken := map[*ssa.Function]bool{}
+	var extTaken []*ssa.Function
+	for _, f := range funcs {
+		for _, b := range f.Blocks {
+			for _, ins := range b.Instrs {
+				var staticCallee ssa.Value
+				if ci, ok := ins.(ssa.CallInstruction); ok && ci.Common().StaticCallee() != nil {
+					staticCallee = ci.Common().Value
+				}
+				for _, op := range ins.Operands(nil) {
+					if op == nil || *op == nil || *op == staticCallee {
+						continue
+					}
+					if g, ok := (*op).(*ssa.Function); ok {
+						if seen[g] {
+							taken[g] = true
+						} else if !taken[g] {
+							taken[g] = true
+							extTaken = append(extTaken, g)
+						}
+					}
+				}
+			}
+		}
+	}
+	sort.Slice(extTaken, func(i, j int) bool { return extTaken[i].String() < extTaken[j].String() })
 	envcalls := map[string]map[string]int{} // function -> environment-reading callee -> number of call sites
 	for i, f := range funcs {
 		callees := map[string]bool{}
@@ -129,25 +189,8 @@ func main() {
 								callsites[fname(f)] = map[string]int{}
 							}
 							callsites[fname(f)][fname(g)]++
-						} else if g.Signature.Recv() != nil && len(c.Args) > 0 {
-							r := root(c.Args[0], 0)
-							isDec := g.Pkg != nil && strings.HasSuffix(g.Pkg.Pkg.Path(), "ericlagergren/decimal")
-							if strings.HasPrefix(r, "global:") || strings.HasPrefix(r, "param:") || (isDec && sharedRoot(r)) {
-								writes["extcall:"+r+":"+g.String()] = true
-							}
-							if !isDec {
-								continue
-							}
-							// reference-typed arguments (other than the receiver) handed to a method of another package
-							for ai := 1; ai < len(c.Args); ai++ {
-								if _, ok := c.Args[ai].Type().Underlying().(*types.Pointer); !ok {
-									continue
-								}
-								ra := root(c.Args[ai], 0)
-								if sharedRoot(ra) {
-									writes[fmt.Sprintf("extarg:%s:%s#%d", ra, g.String(), ai)] = true
-								}
-							}
+						} else {
+							extMethodCall(writes, g, c.Args)
 						}
 						for _, a := range c.Args {
 							if mc, ok := a.(*ssa.MakeClosure); ok {
@@ -161,9 +204,27 @@ func main() {
 						// signature matches
 						sig, _ := c.Value.Type().Underlying().(*types.Signature)
 						for _, g := range funcs {
-							if sig != nil && types.Identical(g.Signature, sig) {
+							if sig != nil && taken[g] && g.Signature.Recv() == nil && types.Identical(g.Signature, sig) {
 								callees[fname(g)] = true
 							}
+						}
+						// a function of another package whose value is taken in this package and whose type fits:
+						// a method expression (T.M, a thunk taking the receiver first) is treated like the static
+						// call of that method with these arguments; anything else is recorded as it is
+						for _, g := range extTaken {
+							if sig == nil || !types.Identical(g.Signature, sig) {
+								continue
+							}
+							if m, ok := g.Object().(*types.Func); ok && strings.HasPrefix(g.Synthetic, "thunk for ") {
+								if mf := prog.FuncValue(m); mf != nil && mf.Signature.Recv() != nil {
+									extMethodCall(writes, mf, c.Args)
+									continue
+								}
+							}
+							if g.Signature.Recv() == nil && !strings.Contains(g.Synthetic, "bound method") && g.Synthetic == "" {
+								continue // a plain function of another package: treated as a static call of it would be
+							}
+							writes["extcall:dynamic:"+g.String()] = true
 						}
 						if mc, ok := c.Value.(*ssa.MakeClosure); ok {
 							if fn, ok := mc.Fn.(*ssa.Function); ok {
